@@ -21,12 +21,13 @@ def get_url(bid):
     info = extension_loader.MANAGER.blacklist_by_id.get(bid)
     if info is not None:
         template = "blacklists/blacklist_{kind}.html#{id}-{name}"
+        # work on a copy: the registry rows are shared process-wide
+        info = info.copy()
         info["name"] = info["name"].replace("_", "-")
 
         if info["id"].startswith("B3"):  # B3XX
             # Some of the links are combined, so we have exception cases
             if info["id"] in ["B304", "B305"]:
-                info = info.copy()
                 info["id"] = "b304-b305"
                 info["name"] = "ciphers-and-modes"
             elif info["id"] in [
@@ -39,7 +40,6 @@ def get_url(bid):
                 "B319",
                 "B320",
             ]:
-                info = info.copy()
                 info["id"] = "b313-b320"
             ext = template.format(
                 kind="calls", id=info["id"], name=info["name"]
